@@ -5,7 +5,7 @@ EXTENDS Naturals, FiniteSets, Sequences, TLC, Json, SequencesExt
 CONSTANTS N
 Nodes == 1..N
 Shapes == { p \in [Nodes -> 0..N] : p[1] = 0 /\ \A n \in 2..N : p[n] < n }
-Esc(r) == IF r = "ptrace" THEN {"none"} ELSE {"none", "setsid", "setpgid", "daemon"}
+Esc(r) == IF r = "ptrace" THEN {"none", "untraced"} ELSE {"none", "setsid", "setpgid", "daemon"}
 EscFor(r, p) == { f \in [Nodes -> Esc(r)] : f[1] = "none" /\ \A n \in Nodes : (n > 1 /\ p[n] = 0) => f[n] = "none" }
 \* what ends the run (ProcTree!Kill abstracts all of them): the program's own exit, a cancellation, or the
 \* caller's sync callback refusing the run (with sync-after-exec the program is already running then)
